@@ -23,7 +23,7 @@ func hasAutoLeaf(c spec.Cond) bool {
 func runC11(ctx *h.Ctx) int {
 	// 1. AutoVar leaves mixed with ordinary leaves: complete truth tables
 	ctx.RunCases("autovar-conditions", ctx.N(6000, 300000), func(k *h.Case) {
-		p := spec.Profile{MaxLeaves: 1 + k.Index%6, PAuto: 0.6, ValueFn: 0.15, PTextArg: 0.2, PMovesArg: 0.05, RichArgs: k.Index%3 == 0}
+		p := spec.Profile{MaxLeaves: 1 + k.Index%6, PAuto: 0.6, ValueFn: 0.15, PTextArg: 0.2, PMovesArg: 0.05, RichArgs: k.Index%3 == 0, PRepeatAuto: 0.3}
 		g := spec.NewGen(k.R, p)
 		c := g.CondTree(p.MaxLeaves)
 		if !hasAutoLeaf(c) {
@@ -93,7 +93,7 @@ func runC11(ctx *h.Ctx) int {
 	})
 	// 4. loops and nesting: AutoVar leaves inside full programs, states change after every command
 	prof := profC01()
-	prof.PAuto, prof.MaxLeaves, prof.PTextArg, prof.NoRedundantPar = 0.5, 3, 0.1, false
+	prof.PAuto, prof.MaxLeaves, prof.PTextArg, prof.NoRedundantPar, prof.PRepeatAuto = 0.5, 3, 0.1, false, 0.25
 	ctx.RunCases("autovar-in-programs", ctx.N(2500, 100000), func(k *h.Case) {
 		g, prog := genScripts(k, prof, 1)
 		pr := layoutOf(k, prog, 0.15)
